@@ -47,6 +47,14 @@ func (g *Gen) symText(s *State, name string, maxLen int) *SVal {
 }
 
 func (g *Gen) fixText(s *State, name string, f *FieldSpec) *SVal {
+	if g.Dom == "raw" {
+		// the field's W wire bytes are arbitrary (any pad/content combination)
+		v := make([]*Term, f.Width)
+		for i := range v {
+			v[i] = g.e().freshVar(name+"_raw", 8)
+		}
+		return &SVal{K: 's', S: VecBytes(v), SMax: f.Width}
+	}
 	if g.Dom == "wide" {
 		return g.symText(s, name, f.Width+g.Slack)
 	}
